@@ -268,7 +268,7 @@ func verifLemmaMaxBodyTight(c *channelInstance, m *Message, chunkSize int, chunk
 // counter moves) the expired token is in no list of its channel afterwards; lists of other channels
 // are left alone.
 //@ func (*SecureChannel).scheduleExpiration
-//@   props C17
+//@   props C17 C10
 //@   bytes
 //@   requires instancesInv(s) && instance != nil && s.c != nil
 //@   let cid = instance.secureChannelID
